@@ -132,6 +132,23 @@ def run(ctx):
             conns.append(c)
         kw = [False] + [ctx.rng.random() < 0.25 for _ in range(k - 1)]
         rnd += mk_cases("r%d" % n, nums_, conns, kw, ctx.rng, "random")
+    # long ranges (a township has 36 sections, but nothing in the statement caps a list)
+    for n in range(300 if thorough else 60):
+        a = ctx.rng.randint(1, 50)
+        b = ctx.rng.randint(a + 30, 99)
+        nums_, conns = [a, b], ["THRU"]
+        if ctx.rng.random() < 0.3:
+            nums_, conns = [b, a], ["THRU"]
+        if ctx.rng.random() < 0.4:
+            nums_.append(ctx.rng.randint(1, 99))
+            conns.append("AND")
+        rnd2 = mk_cases("L%d" % n, nums_, conns, [False] * len(nums_), ctx.rng, "long range", lo_shift=False)
+        for c in rnd2:
+            if c["args"]["flavour"] == "plss" and ctx.rng.random() < 0.6:
+                # also in the layouts whose documented rendering has no colon
+                c["args"].update(prefix="", suffix=", T154N-R97W", block=c["args"]["block"])
+                c["args"]["text"] = c["args"]["block"] + " of " + c["args"]["text"]
+        rnd += rnd2
     check(ctx, rnd)
     ctx.rule = ("abstract lists (numbers, AND/THRU connectives, repeated-keyword flags) = all terminal states of "
                 "spec/ElidedList.tla up to %d numbers over 1..4 (exhaustive) + seeded random lists of 2..8 numbers; "
